@@ -3,6 +3,7 @@ from __future__ import annotations
 
 import concurrent.futures as cf
 import itertools
+import re
 import json
 import os
 import time
@@ -16,7 +17,7 @@ PROP = 'C16'
 MANIFEST = dict(
     technique='TLA+ models FgdDb (lazy binary database) and FgdDoc (text format: exact export text, read-back, long-string splitting, binary decay) checked by TLC; model transitions and TLC-simulated query orders replayed on real EngineDB objects; implementation records validated by TLC (FgdDbTrace, FgdDocTrace)',
     category='model_checking',
-    text='TLC exhausts the lazy-database design on small block layouts (mutually dependent blocks, in-block and chained bases, an overriding second database) with parse-once, stable-identity and same-as-full-load invariants, and checks the same invariants along simulated query orders over the block structure read from the real fgd.lzma; every transition / behaviour is replayed through engine_def()/engine_dbase() on freshly unserialised databases (the small layouts serialised by the real serialise()) and each step - which objects are created in which order, identities, resolved bases, definition hashes, full state snapshots - must be the step FgdDbOps takes. For the text format TLC enumerates ~27k (definition, options) feature combinations and all strings <= 7 over an escape-relevant alphabet for the long-string law; every combination is built through the API, exported, parsed and re-exported, and TLC requires the text to equal ExportLines line by line, the parsed definition to equal ExportParse field by field, and the second text to equal the first; the same for seeded random definitions, _write_longstring at LIMIT=1000, the whole bundled database as one file (order, concatenation, per-entity text and definition) and the binary serialise/unserialise round trip.',
+    text='TLC exhausts the lazy-database design on small block layouts (mutually dependent blocks, in-block and chained bases, an overriding second database) with parse-once, stable-identity and same-as-full-load invariants, and checks the same invariants along simulated query orders over the block structure read from the real fgd.lzma; every transition / behaviour is replayed through engine_def()/engine_dbase() on freshly unserialised databases (the small layouts serialised by the real serialise()) and each step - which objects are created in which order, identities, resolved bases, definition hashes, full state snapshots - must be the step FgdDbOps takes. For the text format TLC enumerates ~28.5k (definition, options) feature combinations (including number-like defaults and choice values: which may be written without quotes) and all strings <= 7 over an escape-relevant alphabet for the long-string law; every combination is built through the API, exported, parsed and re-exported, and TLC requires the text to equal ExportLines line by line, the parsed definition to equal ExportParse field by field, and the second text to equal the first; the same for seeded random definitions, _write_longstring at LIMIT=1000, the whole bundled database as one file (order, concatenation, per-entity text and definition) and the binary serialise/unserialise round trip.',
     design_ref='4 (C16)',
     note='Trusts TLC, the projection (proj_ent, identity tokens from wrapping ent_unserialise) and the real Tokenizer (C03). Alphabet without \\v \\b \\a. The autovis() helper (a parse-time convenience that turns into @AutoVisgroup entries) and snippets are not covered. Pure-Python tree only.',
 )
@@ -30,8 +31,11 @@ def _text_cause(exp_line: str, got_line: str) -> str:
     trans = [
         ('empty_string', lambda e: e.replace(' : ""', ' : ').replace(': ""', ': ')),
         ('unescaped', lambda e: e.replace('\\', '').replace("''", '"')),
+        # a choice value the specification quotes, written bare (blanks around it are lost on the way)
+        ('choice_bare', lambda e: re.sub(r'^\t\t"(?:\\[tnrf]|\s)*([^"]*?)(?:\\[tnrf]|\s)*":', r'\t\t\1:', e)),
     ]
-    norm_got = {False: got_line, True: got_line.replace('\\', '').replace("''", '"')}
+    norm_got = {False: re.sub(r'^\t\t\s*(\S*)\s*:', r'\t\t\1:', got_line) if got_line.startswith('\t\t') else got_line,
+                True: got_line.replace('\\', '').replace("''", '"')}
     for n in range(0, len(trans) + 1):
         for combo in itertools.combinations(trans, n):
             e = exp_line
@@ -40,6 +44,14 @@ def _text_cause(exp_line: str, got_line: str) -> str:
             if e == norm_got[any(name == 'unescaped' for name, _ in combo)]:
                 return '+'.join(name for name, _ in combo) or 'none'
     return 'other'
+
+
+def _floatable(v: str) -> bool:
+    try:
+        float(v)
+    except ValueError:
+        return False
+    return True
 
 
 SPECIAL = set('"\\\n\t\r\f\'')
@@ -60,6 +72,8 @@ def _ent_triggers(orig: dict, cs: bool) -> list[str]:
                 trig.add('empty_string')
             if 'v' in it and set(it['v']) & {'"', '\\'}:
                 trig.add('unescaped')
+            if 'v' in it and _floatable(it['v']) and (it['v'] != it['v'].strip() or '+' in it['v']):
+                trig.add('choice_bare')     # written without quotes although the token cannot carry it
     if any(r['type'] in ('SOUNDSCRIPT', 'PARTICLE_FILE') for r in orig['res']):
         trig.add('resource_keyword')
     return sorted(trig)
@@ -284,7 +298,7 @@ def run(tier: str, seed: int) -> int:
         return []
 
     # quick: a seed-rotated part of the larger families; thorough: every case
-    part = {'res': 1, 'io': 2, 'header': 3, 'kv': 5}
+    part = {'res': 1, 'num': 1, 'io': 2, 'header': 3, 'kv': 5}
 
     def doc_cases(sl: str):
         def fn(cov):
@@ -341,7 +355,7 @@ def run(tier: str, seed: int) -> int:
             jobs += [timed('db_edges_' + n, db_edges(n)) for n in ('Cyc', 'Chain', 'Two')]
             jobs.append(timed('db_singles', db_singles))
         if 'doc' in stages:
-            jobs += [timed('doc_cases_' + sl, doc_cases(sl)) for sl in ('header', 'io', 'res')]
+            jobs += [timed('doc_cases_' + sl, doc_cases(sl)) for sl in ('header', 'io', 'num', 'res')]
             jobs.append(timed('doc_text_mc', text_mc))
         if 'beyond' in stages:
             jobs += [timed(m, beyond(m)) for m in ('docrandom', 'binary', 'long')]
@@ -371,7 +385,7 @@ def run(tier: str, seed: int) -> int:
         cov['exhaustive'] = True
         cov['rule'] = ('every transition of the three small FgdDb layouts replayed by its shortest path on databases written '
                        'by the real serialise(); TLC-simulated query orders (depth 30) and single queries on the real fgd.lzma; '
-                       'every (definition, options) case of the four FgdDoc families (quick: seed-rotated 1/2, 1/3, 1/5 of the io, '
+                       'every (definition, options) case of the five FgdDoc families (quick: seed-rotated 1/2, 1/3, 1/5 of the io, '
                        'header, keyvalue families); seeded random definitions, long strings at LIMIT=1000, the bundled database as '
                        'one file (quick: one option combination, a third of the per-entity records), binary round trip')
         sigs = [sig_of(m) for m in allm]
